@@ -11,9 +11,11 @@ import (
 	"crypto/ed25519"
 	"fmt"
 	"math/big"
+	"reflect"
 	"sort"
 	"strings"
 	"sync"
+	"unsafe"
 
 	"github.com/ethereum/go-ethereum/common"
 	"github.com/ethereum/go-ethereum/crypto"
@@ -199,6 +201,7 @@ type Scenario struct {
 	Fair        bool    // every honest keyper completes >=1 sync+send step per block
 	Stalls      []stall // only if !Fair
 	Tail        int     // fair blocks after the end of the apologizing phase
+	PlainBudget int     // send budget per step under the plain schedule (0 = unlimited): 1 puts a keyper's commitment and evals into different blocks
 	Replicas    int
 }
 
@@ -387,6 +390,10 @@ type Run struct {
 
 	sched         []string // schedule descriptor
 	plainSchedule bool     // use the plain fair schedule also for the DKG blocks
+	// checkPersisted: after every main-loop iteration that ended without error
+	// compare the keyper's in-memory DKG state with the puredkg rows (C08)
+	checkPersisted  bool
+	persistProblems []string
 	// hooks for C08
 	StepHook   func(r *Run, n *Node, budget int) error // replaces n.step if set
 	AfterBlock func(r *Run, closed int64)
@@ -465,6 +472,11 @@ func (r *Run) stepNode(n *Node, budget int) {
 		err = n.step(r.ctx, r.l1, budget)
 	}
 	if err == nil {
+		if r.checkPersisted {
+			if d := persistedVsMemory(n); d != "" && len(r.persistProblems) < 5 {
+				r.persistProblems = append(r.persistProblems, fmt.Sprintf("k%d after its iteration at open height %d (applied blocks up to %d): %s", n.Pos, r.chain.OpenHeight(), n.syncedTo(), d))
+			}
+		}
 		return
 	}
 	msg := fmt.Sprintf("k%d at open height %d: %v", n.Pos, r.chain.OpenHeight(), err)
@@ -684,8 +696,12 @@ func (r *Run) block(generated bool) {
 	type slot struct{ pos, budget int }
 	var slots []slot
 	if !generated {
+		budget := -1
+		if r.sc.PlainBudget > 0 {
+			budget = r.sc.PlainBudget
+		}
 		for _, p := range hs {
-			slots = append(slots, slot{p, -1})
+			slots = append(slots, slot{p, budget})
 		}
 	} else {
 		// order: a drawn permutation of the honest keypers
@@ -1259,4 +1275,118 @@ func msgKind(tx *TxRec) string {
 		return fmt.Sprintf("apology(%d)", len(m.GetApology().Accusers))
 	}
 	return "other"
+}
+
+// ---------------------------------------------------------------------------
+// persisted == memory
+
+// memoryDKG reads the unexported cache of a ShuttermintState: whether it is
+// synchronized with the database and the PureDKG object per eon. (Read-only
+// peek through reflect/unsafe; the repository offers no accessor.)
+func memoryDKG(st *smobserver.ShuttermintState) (synchronized bool, m map[uint64]*puredkg.PureDKG) {
+	v := reflect.ValueOf(st).Elem()
+	synchronized = v.FieldByName("synchronized").Bool()
+	m = map[uint64]*puredkg.PureDKG{}
+	it := v.FieldByName("dkg").MapRange()
+	for it.Next() {
+		active := it.Value() // *ActiveDKG
+		if active.IsNil() {
+			continue
+		}
+		pf := active.Elem().FieldByName("pure") // *puredkg.PureDKG
+		if pf.IsNil() {
+			continue
+		}
+		m[it.Key().Uint()] = (*puredkg.PureDKG)(unsafe.Pointer(pf.Pointer()))
+	}
+	return synchronized, m
+}
+
+// pureCanon is a canonical text of a PureDKG (maps sorted, nil entries kept).
+func pureCanon(p *puredkg.PureDKG) string {
+	var sb strings.Builder
+	fmt.Fprintf(&sb, "phase=%v eon=%d n=%d t=%d keyper=%d", p.Phase, p.Eon, p.NumKeypers, p.Threshold, p.Keyper)
+	sb.WriteString(" poly=")
+	if p.Polynomial == nil {
+		sb.WriteString("nil")
+	} else {
+		for _, c := range *p.Polynomial {
+			fmt.Fprintf(&sb, "%x,", c)
+		}
+	}
+	sb.WriteString(" commitments=[")
+	for _, c := range p.Commitments {
+		if c == nil {
+			sb.WriteString("nil ")
+		} else {
+			fmt.Fprintf(&sb, "%x ", sha8(c.Marshal()))
+		}
+	}
+	sb.WriteString("] evals=[")
+	for _, e := range p.Evals {
+		if e == nil {
+			sb.WriteString("nil ")
+		} else {
+			fmt.Fprintf(&sb, "%x ", sha8(e.Bytes()))
+		}
+	}
+	sb.WriteString("]")
+	// Accusations / Apologies have unexported key types: go through reflect
+	var acc, apo []string
+	it := reflect.ValueOf(p.Accusations).MapRange()
+	for it.Next() {
+		acc = append(acc, fmt.Sprintf("%d>%d", it.Key().Field(0).Uint(), it.Key().Field(1).Uint()))
+	}
+	it = reflect.ValueOf(p.Apologies).MapRange()
+	for it.Next() {
+		ev := it.Value().Interface().(*big.Int)
+		apo = append(apo, fmt.Sprintf("%d>%d:%x", it.Key().Field(0).Uint(), it.Key().Field(1).Uint(), sha8(ev.Bytes())))
+	}
+	sort.Strings(acc)
+	sort.Strings(apo)
+	fmt.Fprintf(&sb, " accusations=%v apologies=%v", acc, apo)
+	return sb.String()
+}
+
+func sha8(b []byte) []byte { return crypto.Keccak256(b)[:6] }
+
+// persistedVsMemory: "" if the keyper's cache is not loaded, or if for every
+// eon the PureDKG in memory equals the one decoded from the puredkg table.
+// Otherwise a description of the difference. Whatever the keyper knows after
+// a committed block must be in the database, or a crash right now loses it.
+func persistedVsMemory(n *Node) string {
+	synced, mem := memoryDKG(n.State)
+	if !synced {
+		return ""
+	}
+	stored := map[uint64]*puredkg.PureDKG{}
+	for _, row := range n.Srv.Rows("puredkg") {
+		p, err := shdb.DecodePureDKG(row["puredkg"].([]byte))
+		if err != nil {
+			return fmt.Sprintf("stored puredkg of eon %v does not decode: %v", row["eon"], err)
+		}
+		stored[uint64(row["eon"].(int64))] = p
+	}
+	var eons []uint64
+	for e := range mem {
+		eons = append(eons, e)
+	}
+	for e := range stored {
+		if _, ok := mem[e]; !ok {
+			eons = append(eons, e)
+		}
+	}
+	sort.Slice(eons, func(i, j int) bool { return eons[i] < eons[j] })
+	for _, e := range eons {
+		m, s := mem[e], stored[e]
+		switch {
+		case m == nil:
+			return fmt.Sprintf("eon %d: the database has a puredkg row, memory has no DKG", e)
+		case s == nil:
+			return fmt.Sprintf("eon %d: memory has a DKG, the database has no puredkg row", e)
+		case pureCanon(m) != pureCanon(s):
+			return fmt.Sprintf("eon %d:\n  memory  : %s\n  database: %s", e, pureCanon(m), pureCanon(s))
+		}
+	}
+	return ""
 }
